@@ -30,6 +30,10 @@ type pushState struct {
 type pushHandler struct {
 	hs        *hashSite
 	readAll   *ssa.Call
+	// viaHelper: the body is read by a helper of the server package (call in the handler); its non-nil byte results are
+	// within the limit by the helper's own check; argOf maps the helper's parameters to the handler's arguments
+	viaHelper *ssa.Call
+	preLimit  bool
 	reader    *ssa.Call // LimitReader / MaxBytesReader, nil when the body is read directly
 	unbounded bool
 	parsed    map[*ssa.Alloc]string // allocation unmarshalled into -> "img" | "idx"
@@ -77,13 +81,80 @@ func findPushHandler(c *core.Ctx) *pushHandler {
 			default:
 				ra = nil
 			}
+			var viaHelper *ssa.Call
+			preLimit := false
+			if ra == nil {
+				// the bytes come out of a helper of this module: every return that hands out bytes returns what it read
+				// with io.ReadAll, after its own ‘len ≤ limit’ test
+				if hr := an.HelperReturns(hs.bytes, func(h *ssa.Function) bool { return core.FuncPkgPath(h) == c.P.Module }); len(hr) > 0 {
+					var inner *ssa.Call
+					good, limited := true, true
+					for _, x := range hr {
+						if an.IsNilConst(an.Strip(x.Val)) {
+							continue
+						}
+						var rc *ssa.Call
+						for _, o := range an.Origins(x.Val) {
+							cc, idx := an.CallOf(o)
+							if cc != nil && idx == 0 && an.IsFunc(cc, "io", "ReadAll") {
+								rc = cc
+							}
+						}
+						if rc == nil || (inner != nil && inner != rc) {
+							good = false
+							break
+						}
+						inner = rc
+						// guarded by len(bytes) <= limit-parameter
+						lim := false
+						for _, g := range an.GuardingEdges(x.Ret.Block()) {
+							a, b, op, ok := an.CmpTest(g.If())
+							if !ok {
+								continue
+							}
+							isLen := func(v ssa.Value) bool {
+								l := lenOf(v)
+								if l == nil {
+									return false
+								}
+								for _, o := range an.Origins(l) {
+									if cc, idx := an.CallOf(o); cc == rc && idx == 0 {
+										return true
+									}
+								}
+								return false
+							}
+							_, pa := an.Origin(b).(*ssa.Parameter)
+							_, pb := an.Origin(a).(*ssa.Parameter)
+							switch {
+							case isLen(a) && pa:
+								if (op == token.LEQ && g.Succ == 0) || (op == token.GTR && g.Succ == 1) {
+									lim = true
+								}
+							case isLen(b) && pb:
+								if (op == token.GEQ && g.Succ == 0) || (op == token.LSS && g.Succ == 1) {
+									lim = true
+								}
+							}
+						}
+						if !lim {
+							limited = false
+						}
+					}
+					if good && inner != nil {
+						ra, readerArg = inner, inner.Call.Args[0]
+						viaHelper, preLimit = hr[0].Call, limited
+					}
+				}
+			}
 			if ra == nil || readerArg == nil {
 				continue
 			}
-			ph := &pushHandler{hs: hs, readAll: ra, parsed: map[*ssa.Alloc]string{}, unmarshal: map[*ssa.Call]*ssa.Alloc{}, verifiers: map[*ssa.Call]string{}, insert: hs.inserts[0]}
+			ph := &pushHandler{hs: hs, readAll: ra, viaHelper: viaHelper, preLimit: preLimit, parsed: map[*ssa.Alloc]string{}, unmarshal: map[*ssa.Call]*ssa.Alloc{}, verifiers: map[*ssa.Call]string{}, insert: hs.inserts[0]}
 			// the reader
 			src := an.Origin(readerArg)
 			isBody := func(v ssa.Value) bool {
+				v = ph.callerValue(v)
 				_, p := accessPath(an.Origin(v))
 				return len(p) > 0 && p[len(p)-1] == "Body"
 			}
@@ -225,10 +296,10 @@ func init() {
 	register(&Rule{ID: "TS-REFTAG", Floor: 1,
 		Doc: "the ref-name annotation of the index entry inserted by the manifest push handler is a constant or a value on which the tag grammar (RefTagRE.MatchString) was checked on the assigning path",
 		Run: runRefTag})
-	register(&Rule{ID: "TS-REFERRER-CALL", Floor: 4,
+	register(&Rule{ID: "TS-REFERRER-CALL", Floor: 3,
 		Doc: "in the push handler the referrers update helper is called on the non-empty edge of the extracted subject and no 2xx is reachable from that edge without it; the subject is extracted from every struct kind the handler parses, under the same setting; in the delete handler the referrers update precedes the index removal",
 		Run: runReferrerCall})
-	register(&Rule{ID: "SH-SIBLING-REF", Floor: 3,
+	register(&Rule{ID: "SH-SIBLING-REF", Floor: 2,
 		Doc: "all builders of a referrers entry (the descriptor literals of the push handler's arms and types.ManifestReferrerDescriptor) fill the same field set {MediaType, ArtifactType, Size, Digest, Annotations}, and where the manifest kind has a config the artifact type falls back to the config's media type",
 		Run: runSiblingRef})
 	register(&Rule{ID: "TS-REFDEL", Floor: 1,
@@ -271,6 +342,7 @@ func analysePush(c *core.Ctx, r *Roles, ph *pushHandler) map[string][2]string {
 		unmErr[call] = ph.parsed[al]
 	}
 	limitPath := func(v ssa.Value) bool {
+		v = an.Origin(ph.callerValue(v))
 		p := fieldPath(an.Strip(v))
 		return pathEndsWith(p, "Manifest", "Limit")
 	}
@@ -357,7 +429,11 @@ func analysePush(c *core.Ctx, r *Roles, ph *pushHandler) map[string][2]string {
 		return s, true
 	}
 	missing := map[string]bool{}
-	an.Paths(an.PathSpec[pushState]{Fn: fn, Init: pushState{},
+	initBits := pushState{}
+	if ph.preLimit {
+		initBits.bits |= bLimit // the helper only hands out bytes that passed its own ‘len ≤ limit’ test
+	}
+	an.Paths(an.PathSpec[pushState]{Fn: fn, Init: initBits,
 		Instr: func(s pushState, in ssa.Instruction) []pushState {
 			if in == ssa.Instruction(ph.insert.(*ssa.Call)) {
 				img := s.bits&bParsedImg != 0 && s.bits&bExistImg != 0
@@ -477,61 +553,192 @@ func verifierProblem(c *core.Ctx, r *Roles, v *ssa.Function) string {
 			}
 		}
 	}
+	isAppend := func(in ssa.Instruction) bool {
+		cl, ok := in.(*ssa.Call)
+		if !ok {
+			return false
+		}
+		bi, ok := cl.Call.Value.(*ssa.Builtin)
+		return ok && bi.Name() == "append"
+	}
+	// recordedFrom: from block b, an append is reached before the next branch (the failure is recorded)
+	recordedFrom := func(b *ssa.BasicBlock) bool {
+		for i := 0; i < 4 && b != nil; i++ {
+			for _, in := range b.Instrs {
+				if isAppend(in) {
+					return true
+				}
+			}
+			if len(b.Succs) != 1 {
+				return false
+			}
+			b = b.Succs[0]
+		}
+		return false
+	}
+	// probe: an existence test of a digest on the repository parameter — BlobGet itself, or a helper of this package that
+	// calls BlobGet with its own (repository, digest) parameters and answers ‘exists’ only on the nil-error edge.
+	// missingSucc returns, for the branch that evaluates the probe, the successor taken when the blob is missing.
+	type probe struct {
+		call   *ssa.Call
+		digest ssa.Value
+	}
+	helperExists := func(h *ssa.Function) (repoIdx, digIdx int, existsTrue bool, ok bool) {
+		if h == nil || len(h.Blocks) == 0 || core.FuncPkgPath(h) != core.FuncPkgPath(v) || h.Signature.Results().Len() != 1 {
+			return 0, 0, false, false
+		}
+		var inner *ssa.Call
+		an.Calls(h, func(call ssa.CallInstruction) {
+			if cc, isCall := call.(*ssa.Call); isCall && r.IsAPI(call, "Repo", "BlobGet") {
+				inner = cc
+			}
+		})
+		if inner == nil {
+			return 0, 0, false, false
+		}
+		recv, args := an.CallArgs(inner)
+		repoIdx, digIdx = -1, -1
+		for i, p := range h.Params {
+			if an.Origin(recv) == ssa.Value(p) {
+				repoIdx = i
+			}
+			if len(args) == 1 && an.Origin(args[0]) == ssa.Value(p) {
+				digIdx = i
+			}
+		}
+		if repoIdx < 0 || digIdx < 0 {
+			return 0, 0, false, false
+		}
+		errv := an.ErrResult(inner)
+		resT := h.Signature.Results().At(0).Type()
+		bt, isBool := resT.Underlying().(*types.Basic)
+		isBool = isBool && bt.Kind() == types.Bool
+		good := true
+		an.Instrs(h, func(in ssa.Instruction) {
+			ret, isRet := in.(*ssa.Return)
+			if !isRet {
+				return
+			}
+			onNil, onNonNil := false, false
+			for _, g := range an.GuardingEdges(ret.Block()) {
+				if x, nilSucc, isNil := an.NilTest(g.If()); isNil && x == errv {
+					if g.Succ == nilSucc {
+						onNil = true
+					} else {
+						onNonNil = true
+					}
+				}
+			}
+			if isBool {
+				bv, isC := an.ConstBool(ret.Results[0])
+				if !isC || (bv && !onNil) || (!bv && !onNonNil) {
+					good = false
+				}
+			} else if an.IsErrorType(resT) {
+				// error-returning form: nil only on the nil edge
+				if an.IsNilConst(ret.Results[0]) && !onNil {
+					good = false
+				}
+			} else {
+				good = false
+			}
+		})
+		return repoIdx, digIdx, true, good
+	}
+	var probes []probe
+	missingSucc := map[*ssa.Call]func(ifi *ssa.If) (int, bool){}
+	an.Calls(v, func(call ssa.CallInstruction) {
+		cc, isCall := call.(*ssa.Call)
+		if !isCall {
+			return
+		}
+		if r.IsAPI(call, "Repo", "BlobGet") {
+			recv, args := an.CallArgs(call)
+			if an.Origin(recv) != ssa.Value(repoParam) || len(args) != 1 {
+				return
+			}
+			probes = append(probes, probe{cc, args[0]})
+			errv := an.ErrResult(cc)
+			missingSucc[cc] = func(ifi *ssa.If) (int, bool) {
+				if x, nilSucc, ok := an.NilTest(ifi); ok && x == errv {
+					return 1 - nilSucc, true
+				}
+				return 0, false
+			}
+			return
+		}
+		if h := cc.Call.StaticCallee(); h != nil {
+			if ri, di, _, ok := helperExists(h); ok && ri < len(cc.Call.Args) && di < len(cc.Call.Args) && an.Origin(cc.Call.Args[ri]) == ssa.Value(repoParam) {
+				probes = append(probes, probe{cc, cc.Call.Args[di]})
+				isBool := false
+				if bt, ok := cc.Type().Underlying().(*types.Basic); ok && bt.Kind() == types.Bool {
+					isBool = true
+				}
+				missingSucc[cc] = func(ifi *ssa.If) (int, bool) {
+					if isBool {
+						base, neg := an.CondBase(ifi.Cond)
+						if base == ssa.Value(cc) {
+							if neg {
+								return 0, true // !exists true → missing on succ 0
+							}
+							return 1, true
+						}
+						return 0, false
+					}
+					if x, nilSucc, ok := an.NilTest(ifi); ok && x == ssa.Value(cc) {
+						return 1 - nilSucc, true
+					}
+					return 0, false
+				}
+			}
+		}
+	})
 	have := map[string]bool{}
 	problem := ""
-	an.Calls(v, func(call ssa.CallInstruction) {
-		if !r.IsAPI(call, "Repo", "BlobGet") {
-			return
+	for _, pr := range probes {
+		root, p := accessPath(an.Strip(pr.digest))
+		if al, ok := root.(*ssa.Alloc); ok {
+			if sv := an.SingleStore(al); sv != nil {
+				root = sv
+			}
 		}
-		recv, args := an.CallArgs(call)
-		if an.Origin(recv) != ssa.Value(repoParam) || len(args) != 1 {
-			return
-		}
-		root, p := accessPath(args[0])
 		if root != ssa.Value(structParam) || len(p) < 2 || p[len(p)-1] != "Digest" {
-			return
+			continue
 		}
 		field := p[0]
 		switch need[field] {
 		case "one":
 			if !pathEq(p, field, "Digest") {
-				return
+				continue
 			}
 		case "many":
 			if !pathEq(p, field, "[]", "Digest") {
-				return
+				continue
 			}
 			// the element access must sit in a loop over the whole slice
-			if !inLoop(call.Block()) {
+			if !inLoop(pr.call.Block()) {
 				problem = fmt.Sprintf("field %s is not checked in a loop over all its elements", field)
 			}
 		default:
-			return
+			continue
 		}
-		// a failure is recorded on the error edge
-		errv := an.ErrResult(call)
+		// a failure is recorded on the missing edge
 		recorded := false
 		for _, b := range v.Blocks {
 			ifi := an.BlockIf(b)
 			if ifi == nil {
 				continue
 			}
-			if x, nilSucc, ok := an.NilTest(ifi); ok && x == errv {
-				for _, in := range b.Succs[1-nilSucc].Instrs {
-					if cl, ok := in.(*ssa.Call); ok {
-						if bi, ok := cl.Call.Value.(*ssa.Builtin); ok && bi.Name() == "append" {
-							recorded = true
-						}
-					}
-				}
+			if ms, ok := missingSucc[pr.call](ifi); ok && recordedFrom(b.Succs[ms]) {
+				recorded = true
 			}
 		}
 		if !recorded {
-			problem = fmt.Sprintf("the failure of BlobGet for field %s is not recorded", field)
-			return
+			problem = fmt.Sprintf("a missing blob for field %s is not recorded (no append on the ‘missing’ edge of the existence test)", field)
+			continue
 		}
 		have[field] = true
-	})
+	}
 	if problem != "" {
 		return problem
 	}
@@ -545,30 +752,70 @@ func verifierProblem(c *core.Ctx, r *Roles, v *ssa.Function) string {
 	if len(miss) > 0 {
 		return fmt.Sprintf("%s does not check the existence of field(s) %v of %s through BlobGet on its repository parameter: a manifest referencing absent content there is accepted", c.P.FuncName(v), miss, c.P.TypeName(structParam.Type()))
 	}
-	// nil is returned only when nothing was recorded
-	okNil := false
+	// ‘nothing missing’ is only answered when nothing was recorded: a nil return is guarded by the emptiness of the list,
+	// or the list itself is returned (nil exactly when nothing was appended to its nil initial value)
+	okNil := true
+	anyRet := false
 	an.Instrs(v, func(in ssa.Instruction) {
 		ret, ok := in.(*ssa.Return)
-		if !ok || len(ret.Results) != 1 || !an.IsNilConst(ret.Results[0]) {
+		if !ok || len(ret.Results) != 1 {
 			return
 		}
-		for _, g := range an.GuardingEdges(ret.Block()) {
-			x, y, op, ok := an.CmpTest(g.If())
-			if !ok {
-				continue
-			}
-			if lenOf(x) != nil {
-				if k, isC := an.ConstInt(y); isC && k == 0 {
-					// len(es) > 0 false side, or len(es) == 0 true side
-					if (op == token.GTR && g.Succ == 1) || (op == token.EQL && g.Succ == 0) || (op == token.NEQ && g.Succ == 1) {
-						okNil = true
+		anyRet = true
+		if an.IsNilConst(ret.Results[0]) {
+			guarded := false
+			for _, g := range an.GuardingEdges(ret.Block()) {
+				x, y, op, ok := an.CmpTest(g.If())
+				if !ok {
+					continue
+				}
+				if lenOf(x) != nil {
+					if k, isC := an.ConstInt(y); isC && k == 0 {
+						if (op == token.GTR && g.Succ == 1) || (op == token.EQL && g.Succ == 0) || (op == token.LEQ && g.Succ == 0) || (op == token.NEQ && g.Succ == 1) {
+							guarded = true
+						}
 					}
 				}
 			}
+			if !guarded {
+				okNil = false
+			}
+			return
+		}
+		// the list itself: all its sources are appends or a nil / empty initial value
+		seen := map[ssa.Value]bool{}
+		var fromList func(x ssa.Value, d int) bool
+		fromList = func(x ssa.Value, d int) bool {
+			x = an.Strip(x)
+			if d > 8 || seen[x] {
+				return true
+			}
+			seen[x] = true
+			switch y := x.(type) {
+			case *ssa.Const:
+				return y.Value == nil
+			case *ssa.Phi:
+				for _, e := range y.Edges {
+					if !fromList(e, d+1) {
+						return false
+					}
+				}
+				return true
+			case *ssa.Call:
+				if isAppend(y) {
+					return fromList(y.Call.Args[0], d+1)
+				}
+			case *ssa.Slice:
+				return true // an empty literal []T{}
+			}
+			return false
+		}
+		if !fromList(ret.Results[0], 0) {
+			okNil = false
 		}
 	})
-	if !okNil {
-		return "the verifier's nil result is not tied to an empty failure list"
+	if !anyRet || !okNil {
+		return fmt.Sprintf("%s can answer ‘nothing missing’ (nil) although a missing blob was recorded: its result is neither the list of recorded failures nor nil on the ‘list is empty’ edge", c.P.FuncName(v))
 	}
 	return ""
 }
@@ -667,19 +914,57 @@ func referrerHelpers(c *core.Ctx) []*ssa.Function {
 		if !hasRepo {
 			continue
 		}
-		get, ins := false, false
+		get := false
 		an.Calls(fn, func(call ssa.CallInstruction) {
 			if r.IsAPI(call, "Repo", "IndexGet") {
 				get = true
 			}
-			if r.IsAPI(call, "Repo", "IndexInsert") {
-				ins = true
-			}
 		})
-		if get && ins {
+		// the insert may sit in a function of the server package this one calls (a shared ‘store the response’ step)
+		if get && len(callsReaching(c, r, fn, "Repo", "IndexInsert")) > 0 {
 			out = append(out, fn)
 		}
 	}
+	return out
+}
+
+// reachesAPI: fn, or a function of the server package it calls (two levels), calls the given store API method.
+func reachesAPI(c *core.Ctx, r *Roles, fn *ssa.Function, iface, method string, depth int, seen map[*ssa.Function]bool) bool {
+	if fn == nil || seen[fn] || depth > 2 || len(fn.Blocks) == 0 {
+		return false
+	}
+	seen[fn] = true
+	hit := false
+	an.Calls(fn, func(call ssa.CallInstruction) {
+		if hit {
+			return
+		}
+		if r.IsAPI(call, iface, method) {
+			hit = true
+			return
+		}
+		if sc := call.Common().StaticCallee(); sc != nil && core.FuncPkgPath(sc) == c.P.Module && reachesAPI(c, r, sc, iface, method, depth+1, seen) {
+			hit = true
+		}
+	})
+	return hit
+}
+
+// callsReaching: the calls in fn that are the given store API call, or call a server function that reaches it.
+func callsReaching(c *core.Ctx, r *Roles, fn *ssa.Function, iface, method string) []ssa.CallInstruction {
+	var out []ssa.CallInstruction
+	an.Calls(fn, func(call ssa.CallInstruction) {
+		if _, isDefer := call.(*ssa.Defer); isDefer {
+			return
+		}
+		if r.IsAPI(call, iface, method) {
+			out = append(out, call)
+			return
+		}
+		if sc := call.Common().StaticCallee(); sc != nil && sc != fn && core.FuncPkgPath(sc) == c.P.Module && reachesAPI(c, r, sc, iface, method, 1, map[*ssa.Function]bool{fn: true}) {
+			out = append(out, call)
+		}
+	})
 	return out
 }
 
@@ -1221,4 +1506,25 @@ func init() {
 				}})
 			c.Check(bad == token.NoPos, "gives-up-only-without-markers", fn.Pos(), "%s answers \"\" only where every field it tested was absent (it gives up at %s although %s was found present): %v — otherwise a body of a recognisable kind is not recognised and the handler's comparison with the declared media type is skipped for it", c.P.FuncName(fn), c.P.Pos(bad), badField, bad == token.NoPos)
 		}})
+}
+
+// callerValue maps a parameter of the body-reading helper to the argument the handler passes for it.
+func (ph *pushHandler) callerValue(v ssa.Value) ssa.Value {
+	if ph.viaHelper == nil {
+		return v
+	}
+	p, ok := an.Origin(v).(*ssa.Parameter)
+	if !ok {
+		return v
+	}
+	h := ph.viaHelper.Call.StaticCallee()
+	if h == nil || p.Parent() != h {
+		return v
+	}
+	for i, q := range h.Params {
+		if q == p && i < len(ph.viaHelper.Call.Args) {
+			return ph.viaHelper.Call.Args[i]
+		}
+	}
+	return v
 }
